@@ -16,26 +16,39 @@ RULE = ("real controllers of all operators of a committee (4 and 7) run one duty
         "of all roles. Monitor: no reject; in fault-free in-order runs everything is accepted. Non-trivial = the run contains "
         "a round change (round >= 2) or a decided message; distinct by op lines")
 TRUSTED_BASE = [
-    "monitor-only correspondence: the real instances and the real validators are run against each other; no Gallina model "
-    "of message validation is executed by this check (the validation model is tied to the code by C08/C09)",
+    "hx-c10 is a monitor-only run: the real instances and the real validators are run against each other (no model replays it)",
+    "the composition theorem C10_fault_free_round_is_accepted is about two models: the validation model, tied to the real "
+    "validator by hx-val + Validation/Extract.v (run here as well: EXTRA_RUNS val-hist / val-table, every observation diffed; "
+    "also C08/C09), and the protocol model, tied to the real instance by hx-qbft (C01/C06/C07); the mapping between them "
+    "(Qbft/HonestGate.v gate_msg: type, height, round, signers, data-present, data-hashes-to-root, justification lengths) is the "
+    "abstraction harness/cmd/hx-val/abstract.go computes from real bytes - inspected, not machine-checked",
     "modelled, not verified (theorems): instance.isProposalJustification / validRoundChangeForData / highestPrepared / "
-    "CreateProposal / aggregateCommitMsgs / RoundRobinProposer",
+    "CreateProposal / aggregateCommitMsgs / RoundRobinProposer; validateConsensusMessage and what it calls (Validation/Model.v)",
 ]
 ASSUMPTIONS = [
     "timing assumptions as the driver implements them: lock-step rounds, all correct operators time out together",
     "the peer's duty store contains the duty (ErrNoDuty depends on the peer's own beacon data)",
     "partial-signature messages are the ones the spec's honest constructors build (the same signing functions the runners use)",
 ]
-TECHNIQUE = ("Coq rule lemmas on the protocol model (validator's justification predicate is weaker than the instance's; leader "
-             "proposals carry leader, hash and justification the validator demands; decided signers sorted) + exploration of "
-             "timed multi-operator executions of the real code validated by real peer validators")
-LEVEL_TEXT = ("PARTIAL. Machine-checked for all states and messages: the validator's call of IsProposalJustification (no signature "
-              "check, trivial value check) accepts whatever the instance's own predicate accepts; justifications survive being "
-              "marshalled without full data; the proposal a correct leader broadcasts for its current round (and the first-round "
-              "proposal) is signed by that round's round-robin leader, carries data hashing to its root and passes the predicate; "
-              "the node's aggregated decided message lists its signers sorted. Not proved: the composition over timed executions "
-              "with the validation model, per-signer limits, round/slot windows, partial-signature rules - these are explored: real "
-              "controllers against real validators in timing-respecting executions, all roles, committees 4 and 7.")
+TECHNIQUE = ("Coq proof that the validation model accepts, in any arrival order and at any instant of the duty's slot, every "
+             "message the protocol model's correct operators broadcast in the fault-free first round (all committees, quorums, "
+             "heights, leaders, consensus roles) + rule lemmas for later rounds + differential correspondence of the validation "
+             "model against the real validator + exploration of timed multi-operator executions of the real code validated by "
+             "real peer validators")
+LEVEL_TEXT = ("PARTIAL. Machine-checked: (a) the second sentence of the property for the consensus messages of the first round - "
+              "C10_fault_free_round_broadcasts (what every operator broadcasts, for every committee of distinct non-zero ids, every "
+              "quorum, height, leader) and C10_fault_free_round_is_accepted (those broadcasts, wrapped as a peer receives them, "
+              "through the validation model's entry point from a validator that has seen nothing of the duty: every result is "
+              "Accept, for ANY arrival order, each message at most once, each validated while the peer's clock is in the duty's "
+              "slot - C10_own_slot_is_inside_the_windows turns that into the slot and round window checks incl. their uint64 / "
+              "Duration arithmetic); the proof is an invariant over the per-signer state, the only coupling between messages; "
+              "(b) for all states and messages: the validator's call of IsProposalJustification accepts whatever the instance's own "
+              "predicate accepts; justifications survive being marshalled without full data; the proposal a correct leader broadcasts "
+              "for its current round is signed by that round's round-robin leader (both transcriptions of RoundRobinProposer agree on "
+              "all uint64 inputs), carries data hashing to its root and passes the predicate; aggregated decided messages list their "
+              "signers sorted. Not proved: later rounds (round changes, justified proposals, decided aggregates) composed with the "
+              "validation model over timed executions, partial-signature messages, delivery at other offsets of the window - these are "
+              "explored: real controllers against real validators in timing-respecting executions, all roles, committees 4 and 7.")
 LEVEL_NOTE = ("Partial claim (DESIGN.md section 7). The predicted rule conflict P2 (ProposalData filled from any message with full data) "
               "needs a correct operator that prepared alone, which timely delivery among correct operators excludes; it is recorded as "
               "an observation outside C10's quantifier.")
@@ -48,6 +61,14 @@ def runs(tier, seed):
     r += [("partial4", ["partial", "-seed", str(seed), "-n", "36", "-size", "4"]),
           ("partial7", ["partial", "-seed", str(seed), "-n", "18", "-size", "7"])]
     return r
+
+
+def EXTRA_RUNS(tier, seed):
+    """C10_fault_free_round_is_accepted is a theorem about the VALIDATION model: its tie to the real validator
+    (hx-val + Validation/Extract.v, honest multi-duty histories and the mutation table) is run here too."""
+    n = "300" if tier == "thorough" else "40"
+    return [("hx-val", "validation", "Validation/Extract.v", "val-hist", ["validate", "-stream", "hist", "-seed", str(seed + 10), "-n", n, "-prop", "C09"]),
+            ("hx-val", "validation", "Validation/Extract.v", "val-table", ["validate", "-stream", "table", "-seed", str(seed + 10), "-prop", "C09"])]
 
 
 def search_runs(tier, seed):
